@@ -89,6 +89,11 @@ fn check_f32(m: u32, r: &mut Report, ranges: &[(f32, f32)]) {
 fn special_outputs() -> Vec<u64> {
     let mut v = vec![u64::MAX, 1, u64::MAX - 1, 1 << 63, (1 << 63) - 1, (1 << 41) - 1, 1 << 41, !((1u64 << 41) - 1), 0x8000_0000, 0x7FFF_FFFF, 0xFFFF_FFFF, 0x1_0000_0000];
     for k in 0..64 { v.push(1 << k); v.push(!(1u64 << k)); v.push(u64::MAX >> k); v.push(u64::MAX << k); }
+    // both 32-bit halves (and all four 16-bit quarters) on boundary words: samplers that split one draw into several coordinates
+    let h: [u64; 8] = [0, 1, 0x7FFF_FFFF, 0x8000_0000, 0x8000_0001, 0xFFFF_FFFF, 0x4000_0000, 0xC000_0000];
+    for a in h { for b in h { v.push(a << 32 | b); } }
+    let q: [u64; 5] = [0, 1, 0x7FFF, 0x8000, 0xFFFF];
+    for a in q { for b in q { for c in q { for d in q { v.push(a << 48 | b << 32 | c << 16 | d); } } } }
     v.retain(|x| *x != 0);
     v.sort(); v.dedup();
     v
@@ -294,7 +299,7 @@ fn main() {
     // boundary raw outputs (all ones, single bits, runs of ones ...) through every scalar distribution
     let sp = special_outputs();
     rep.set("special_raw_outputs", sp.len() as u64);
-    rep.merge(par_range(&cfg, sp.len() as u64, |i, r| check_raw_out(sp[i as usize], r)));
+    rep.merge(par_range(&cfg, sp.len() as u64, |i, r| { check_raw_out(sp[i as usize], r); let s = state_for_output(sp[i as usize]); if s != 0 { check_2d(s, r, "special-output"); check_3d(s, r, "special-output"); check_composite(s, r); } }));
     // (b) integer ranges over low words
     let iranges: Vec<(i32, i32)> = vec![(1, 7), (-123, 456), (0, 1), (i32::MIN, i32::MIN + 3), (0, i32::MAX), (i32::MIN, -1), (5, 6), (-7, -1), (i32::MAX - 2, i32::MAX), (-1 << 30, (1 << 30) - 1)];
     if quick {
@@ -386,6 +391,6 @@ fn main() {
     }
     rep.sample(0, || obj! {"f32" => "mantissa 0x7fffff, range 1000..1001", "i32" => "low word 0x80000000, range -2147483648..-2147483645", "pair_state" => "state with mantissas (0x400000,0x400000) from GF(2) solve", "orbit_seed" => Xorshift64::DEFAULT_SEED});
     rep.finish(&cfg, "exploration",
-        "all 2^23 mantissas x 12 float ranges and x 9 Bernoulli p; ~250 boundary raw 64-bit outputs (all ones, single bits, runs of ones and complements) through every scalar distribution; all 2^32 low words (quick: 2^24 boundary-dense) x 10 int ranges; multi-component distributions on GF(2)-solved states: every pair of 8 boundary mantissas x the full 2^18 solution space, boundary x all 2^23 second mantissas, boundary pairs x all top-18-bit third mantissas, plus 2^20 (2^24) spread states and 16 orbit segments of 2^17 (2^22) consecutive states; composite distributions vs scalar draws; orbits of 1066 seeds for 2^18 (2^24) steps and 2^31 steps from the default seed (thorough): never zero, no early cycle, inverse step returns the predecessor. The 2^64-1 period clause is only bounded by enumeration; the GF(2) order certificate is supplementary algebra.",
+        "all 2^23 mantissas x 12 float ranges and x 9 Bernoulli p; ~900 boundary raw 64-bit outputs (all ones, single bits, runs of ones and complements, boundary words in both 32-bit halves and in all four 16-bit quarters) through every scalar and multi-component distribution; all 2^32 low words (quick: 2^24 boundary-dense) x 10 int ranges; multi-component distributions on GF(2)-solved states: every pair of 8 boundary mantissas x the full 2^18 solution space, boundary x all 2^23 second mantissas, boundary pairs x all top-18-bit third mantissas, plus 2^20 (2^24) spread states and 16 orbit segments of 2^17 (2^22) consecutive states; composite distributions vs scalar draws; orbits of 1066 seeds for 2^18 (2^24) steps and 2^31 steps from the default seed (thorough): never zero, no early cycle, inverse step returns the predecessor. The 2^64-1 period clause is only bounded by enumeration; the GF(2) order certificate is supplementary algebra.",
         &["harness-side inverse of the step is validated against the real next_bits on every use", "unit-length tolerance 1e-3, disk/ball tolerance 1e-6 in f64", "int ranges with representable width only"]);
 }
